@@ -50,9 +50,9 @@ pub fn c05_can_pass<const STEP: usize, const KIND: u8>(inp: &Inp) -> Verdict {
         gs.can_pass(true) == (rule && !pass_withheld(&s)),
         "C05: can_pass(true) is not 'legal pass whose result differs from the turn's start and has not occurred twice'"
     );
-    vcover!(rule && s.initial == (s.hash ^ hashval::step_delta(s.step)), "C05 witness: pass would leave the position unchanged");
-    vcover!(rule && !(s.initial == (s.hash ^ hashval::step_delta(s.step))) && pass_withheld(&s), "C05 witness: pass would be the third occurrence");
-    vcover!(rule && !pass_withheld(&s) && s.hist_len == HIST_MAX, "C05 witness: pass allowed with a full history");
+    vcover_if!(STEP >= 1 && KIND != KIND_PUSH, rule && s.initial == (s.hash ^ hashval::step_delta(s.step)), "C05 witness: pass would leave the position unchanged");
+    vcover_if!(STEP >= 1 && KIND != KIND_PUSH, rule && !(s.initial == (s.hash ^ hashval::step_delta(s.step))) && pass_withheld(&s), "C05 witness: pass would be the third occurrence");
+    vcover_if!(STEP >= 1 && KIND != KIND_PUSH, rule && !pass_withheld(&s) && s.hist_len == HIST_MAX, "C05 witness: pass allowed with a full history");
     std::mem::forget(gs);
     Verdict::Held
 }
@@ -248,22 +248,22 @@ fn list_has_pass(l: &Vec<Action>, max: usize) -> bool {
 /// The summary queries against the lists, both computed by the real engine on the same state.
 /// `part` selects one relation per harness (memory): 0 = result vs offered list, 1 = has_move vs
 /// offered list, 2 = can_pass vs the two lists.
-fn summaries<const PART: u8>(s: &Scn, gs: &GameState, max: usize) {
-    let part = PART;
-    if part == 2 {
+fn summaries<const PART: u8>(s: &Scn, gs: &GameState, max: usize) -> (bool, bool) {
+    if PART == 2 {
         let va = gs.valid_actions();
         let nr = gs.valid_actions_no_rep();
         assert!(va.len() <= max && nr.len() <= max, "CUT: action list longer than the unrolling width");
         assert!(gs.can_pass(true) == list_has_pass(&va, max), "C07: can_pass(true) disagrees with the offered list");
         assert!(gs.can_pass(false) == list_has_pass(&nr, max), "C07: can_pass(false) disagrees with the rule-only list");
-        vcover_if!(PART == 2, s.step == 0 || (list_has_pass(&nr, max) && !list_has_pass(&va, max)), "C07 witness: pass withheld by the repetition rules");
+        let withheld = list_has_pass(&nr, max) && !list_has_pass(&va, max);
+        let offered = list_has_pass(&va, max);
         std::mem::forget(va);
         std::mem::forget(nr);
-        return;
+        return (withheld, offered);
     }
     let va = gs.valid_actions();
     assert!(va.len() <= max, "CUT: action list longer than the unrolling width");
-    if part == 0 {
+    if PART == 0 {
         let term = outcome_of(&gs.is_terminal());
         if s.step == 0 {
             if term.is_none() {
@@ -282,9 +282,9 @@ fn summaries<const PART: u8>(s: &Scn, gs: &GameState, max: usize) {
             assert!(o == model::win_for(!s.gold), "C07: has_move reports a win for the player without moves");
         }
     }
-    vcover_if!(PART != 2, va.is_empty(), "C07 witness: no action offered");
-    vcover_if!(PART != 2, !va.is_empty(), "C07 witness: some action offered");
+    let r = (va.is_empty(), !va.is_empty());
     std::mem::forget(va);
+    r
 }
 
 /// All boards, lowest-bit projection (exact for emptiness): steps 0-2, and step 3 after a capture.
@@ -296,9 +296,12 @@ pub fn c07_summary<const STEP: usize, const KIND: u8, const PART: u8>(inp: &Inp)
     }
     let gs = build_state(&s);
     #[cfg(kani)]
-    summaries::<PART>(&s, &gs, 14);
+    let (w1, w2) = summaries::<PART>(&s, &gs, 14);
     #[cfg(not(kani))]
-    summaries::<PART>(&s, &gs, 300);
+    let (w1, w2) = summaries::<PART>(&s, &gs, 300);
+    // part 2: (pass withheld by repetition, pass offered); parts 0/1: (no action, some action)
+    vcover_if!(KIND != KIND_PUSH && !(PART == 2 && STEP == 0), w1, "C07 witness: nothing offered (parts 0/1) / the pass is withheld by the repetition rules (part 2)");
+    vcover_if!(!(PART == 2 && (STEP == 0 || KIND == KIND_PUSH)), w2, "C07 witness: something offered (parts 0/1) / the pass is offered (part 2)");
     std::mem::forget(gs);
     Verdict::Held
 }
@@ -313,9 +316,11 @@ pub fn c07_small<const STEP: usize, const KIND: u8, const KP: u32, const PART: u
     crate::stubs::set_target(s.probe, s.aux % 6, s.aux & 8 == 8);
     let gs = build_state(&s);
     #[cfg(kani)]
-    summaries::<PART>(&s, &gs, (4 * KP + 1) as usize);
+    let (w1, w2) = summaries::<PART>(&s, &gs, (4 * KP + 1) as usize);
     #[cfg(not(kani))]
-    summaries::<PART>(&s, &gs, 300);
+    let (w1, w2) = summaries::<PART>(&s, &gs, 300);
+    vcover_if!(KIND != KIND_PUSH && !(PART == 2 && STEP == 0), w1, "C07 witness (small): nothing offered (parts 0/1) / the pass is withheld by the repetition rules (part 2)");
+    vcover_if!(!(PART == 2 && (STEP == 0 || KIND == KIND_PUSH)), w2, "C07 witness (small): something offered (parts 0/1) / the pass is offered (part 2)");
     std::mem::forget(gs);
     Verdict::Held
 }
